@@ -389,6 +389,8 @@ pub fn gen_arg(rng: &mut Rng, id: &str, positional: bool, cfg: &GenCfg, ids: &[S
             2 => { let o = other(rng); if o != a.id { a.r_unless.push(o); } }
             3 => { let o = other(rng); let o2 = other(rng); if o != a.id && o2 != a.id { a.r_unless_all = vec![o, o2]; a.r_unless_all.dedup(); } }
             4 => { let o = other(rng); if o != a.id { a.r_ifs_all.push((o, "v".into())); } }
+            // both kinds of conditional requirement on one arg (each alone must make it required)
+            5 => { let o = other(rng); let o2 = other(rng); if o != a.id && o2 != a.id && o != o2 { a.r_ifs.push((o, "v".into())); a.r_ifs_all.push((o2, "v".into())); } }
             _ => {}
         }
     }
